@@ -90,6 +90,25 @@ def stream_receiver(chk, fx, kind, b, mlen):
     finds = b.calls_to("memmem::Finder::<'n>::find", user_only=True)
     reads = b.calls_to("AsyncReadExt::read_buf", "AsyncReadExt::read", user_only=True)
     splits = b.calls_to("BytesMut::split_to", user_only=True)
+    # find + split may live in a private helper of the handle ("split one message off the buffer"), called with the search offset
+    helper = None
+    if not finds and not splits:
+        for c in b.calls():
+            if c.macro:
+                continue
+            hb = fx.mir.get(c.rdef) or fx.mir.get(c.defn)
+            if hb is None or hb.crate != "netconf" or hb is b:
+                continue
+            hf = hb.calls_to("memmem::Finder::<'n>::find", user_only=True)
+            hs_ = hb.calls_to("BytesMut::split_to", user_only=True)
+            if hf and hs_:
+                helper = (c, hb, hf, hs_)
+                break
+    caller, caller_sym, hcall = b, sym, None
+    if helper is not None:
+        hcall, b, finds, splits = helper
+        sym = TC.Sym(b, mlen)
+        chk.analysed(b.name)
     chk.floor("C06 %s find/read/split sites" % kind, min(len(finds), len(reads), len(splits)), 1)
     chk.call_sites += len(finds) + len(reads) + len(splits)
     start_local = None
@@ -102,7 +121,13 @@ def stream_receiver(chk, fx, kind, b, mlen):
             e0 = sym.of_operand(op)
             if e0[0] == "var":
                 start_local = e0[1]
-                alts = sym.alternatives(e0[1])
+                argc = b.raw["arg_count"]
+                if hcall is not None and 1 <= e0[1] <= argc:
+                    # the offset is a parameter of the helper: its values are what the caller passes
+                    ce = caller_sym.of_operand(hcall.args[e0[1] - 1])
+                    alts = caller_sym.alternatives(ce[1]) if ce[0] == "var" else [(ce, None)]
+                else:
+                    alts = sym.alternatives(e0[1])
             else:
                 alts = [(e0, None)]
             for (e, sp) in alts:
@@ -125,7 +150,9 @@ def stream_receiver(chk, fx, kind, b, mlen):
                      s.loc(), holds=ok, key="C06/R2 %s split-position" % fn)
         # the buffer split is the buffer searched and read into
     # R3: a find precedes every wait for input
-    find_blocks = [f.bb for f in finds]
+    hb_ = b
+    b = caller
+    find_blocks = [f.bb for f in finds] if hcall is None else [hcall.bb]
     for r in reads:
         reach = b.reachable(0, avoid=find_blocks)
         chk.instance("C06/R3", "%s: the buffer is searched before waiting for more input" % kind, b.name, r.loc(),
@@ -140,9 +167,14 @@ def stream_receiver(chk, fx, kind, b, mlen):
         chk.instance("C06/R4", "%s: read_buf destination is a field of the handle (survives the call)" % kind, b.name,
                      r.loc(), holds=ok, key="C06/R4 %s read-buffer-not-in-handle" % fn)
     for s in splits:
-        ok = rooted_in_self(b, F.op_base(s.args[0]))
-        chk.instance("C06/R4", "%s: split_to operates on the handle's buffer" % kind, b.name, s.loc(), holds=ok,
+        ok = rooted_in_self(hb_, F.op_base(s.args[0]))
+        chk.instance("C06/R4", "%s: split_to operates on the handle's buffer" % kind, hb_.name, s.loc(), holds=ok,
                      key="C06/R4 %s split-buffer-not-in-handle" % fn)
+    if hcall is not None:
+        # the helper is given the handle itself
+        ok = rooted_in_self(caller, F.op_base(hcall.args[0])) or 1 in caller.backward_slice(F.op_base(hcall.args[0]), through_call=lambda c: c.is_fn("Deref::deref", "DerefMut::deref_mut"))[1]
+        chk.instance("C06/R4", "%s: the split helper works on the handle (self)" % kind, caller.name, hcall.loc(), holds=ok,
+                     key="C06/R4 %s helper-not-on-handle" % fn)
 
 
 def rooted_in_self(b, l):
